@@ -542,7 +542,16 @@ impl Engine for C07 {
             cfgs.push(k);
             server_cfgs.push(cfgs.len() - 1);
         }
-        let n_threads = 1 + w.usize(4);
+        // every eighth scenario is the plainest contention there is: three threads, each twice
+        // through the library with documents that have state to leak (templates, random draws,
+        // accumulators), switched at every element
+        let contention = index % 8 == 2 && !damage;
+        if contention {
+            docs.truncate(1);
+            docs[0] = Doc::from_str(&docgen::stateful_doc(&mut w));
+            docs.push(Doc::from_str(&docgen::stateful_doc(&mut w)));
+        }
+        let n_threads = if contention { 3 } else { 1 + w.usize(4) };
         let mut threads: Vec<Vec<Req>> = Vec::new();
         let mut burst_reqs: Vec<(usize, usize)> = Vec::new();
         let mut client = 0;
@@ -553,7 +562,7 @@ impl Engine for C07 {
                 client += 1;
                 let doc = w.usize(docs.len());
                 let utf8 = docs[doc].as_str().is_some();
-                let mut fe = match w.below(20) {
+                let mut fe = match if contention { w.below(11) } else { w.below(20) } {
                     0..=5 => "str",
                     6..=10 => "stream",
                     11..=14 => "cli-file",
@@ -675,7 +684,7 @@ impl Engine for C07 {
                 threads[*t][*q].doc = docs.len() - 1;
             }
         }
-        let policy = match sp.below(8) {
+        let policy = match if contention { 1 } else { sp.below(8) } {
             0 => Policy::Sequential,
             1 | 2 => Policy::Uniform,
             3 | 4 => Policy::Sticky { keep: 8 + sp.below(7) as u8 },
